@@ -32,7 +32,9 @@ RULE = ('one PRNG; a case is a random mesh (ring with chords / grid / random con
         'end points, as in 1+1 protection; ~35 % with STRICT / LOOSE / mixed include lists of ROADMs or line elements) '
         'and 1-4 synchronisation vectors: pairs, triples, quadruples, overlapping vectors, duplicated vectors. About '
         'half of the cases hold exactly one pair (completeness is judged there). Unsatisfiable vectors (bridges, '
-        'trees, contradictory STRICT lists) are the rejected stream: DisjunctionError. Non-trivial = some vector has a '
+        'trees, contradictory STRICT lists) are the rejected stream: DisjunctionError. ~22 % of the cases are overlapping '
+        'vectors around one shared request with a 1+1 twin in a well-connected mesh (later vectors must stay consistent '
+        'with the path already fixed). Non-trivial = some vector has a '
         'request with at least two candidate paths.')
 MODEL_SCOPE = ('modelled: isdisjoint, the short list of step 1, find_reversed_path (C11), steps 2-5 of '
                'compute_path_dsjctn over candidate indices incl. Python remove-while-iterating semantics and '
@@ -69,7 +71,35 @@ S, L = 'STRICT', 'LOOSE'
 # generator
 # --------------------------------------------------------------------------------------------------------------------
 
+def gen_overlap(rng, tier):
+    """overlapping vectors around one shared request in a well-connected mesh: the shared request A has a 1+1 twin B
+    (so the first vector does not give A its shortest candidate) and further vectors {A, C}, {A, D}, {B, C} ...;
+    every later vector has to stay consistent with the path already fixed for the shared request"""
+    n = rng.choice([5, 6, 6, 7])
+    mesh = meshes.rand_mesh(rng, n, shape=rng.choice(['ring', 'random', 'random']), max_extra=rng.choice([3, 4, 5]))
+    for lk in mesh['links']:                      # single-span links keep the candidate lists short
+        lk[2], lk[3], lk[4] = lk[2][:1], lk[3][:1], 'plain'
+    s, t = rng.sample(range(n), 2)
+    ends = [(s, t), (s, t) if rng.random() < 0.75 else (t, s)]
+    for _ in range(rng.choice([1, 1, 2])):
+        r = rng.random()
+        ends.append((s, rng.choice([x for x in range(n) if x != s])) if r < 0.3 else
+                    (rng.choice([x for x in range(n) if x != t]), t) if r < 0.5 else tuple(rng.sample(range(n), 2)))
+    reqs = [{'id': i, 'src': ['T', a], 'dst': ['T', b], 'inc': [], 'bidir': False, 'mode': 'mode 1'}
+            for i, (a, b) in enumerate(ends)]
+    sync = [rng.sample([0, 1], 2)]
+    for c in range(2, len(reqs)):
+        sync.append(rng.sample([rng.choice([0, 0, 1]), c], 2))
+    if len(reqs) == 4 and rng.random() < 0.4:
+        sync.append([2, 3])
+    if rng.random() < 0.3:
+        rng.shuffle(sync)
+    return {'kind': 'disj', 'mesh': mesh, 'reqs': reqs, 'sync': sync, 'via': 'dsjctn'}
+
+
 def gen(rng, tier, widen=False):
+    if rng.random() < (0.5 if widen else 0.22):
+        return gen_overlap(rng, tier)
     if tier == 'quick':
         n = rng.choice([4, 5, 5, 6, 6, 7])
     else:
